@@ -546,17 +546,65 @@ func (c *Ctx) ruleR08c(rule string) {
 		return
 	}
 	for _, fn := range cbs {
-		name := c.name(fn)
 		lf := lin.New(fn, func(string) bool { return true })
 		lf.Sub = func(g *ssa.Function) *lin.Fn { return c.linFn(g) }
 		b := fn.Params[0]
 		lf.Axioms = append(lf.Axioms, lin.Ge(lf.LenOf(b), lin.Const(1), "Readf calls the callback only with a non-empty remainder (cur < File.len)"))
 		lf.Prepare()
+		c.readfContract(rule, fn, lf, b, 0)
+	}
+}
+
+// readfContract checks the returns of a Readf callback (or of a helper it hands its result over to) against the
+// contract of Reader.Readf, and the UnquoteChar discipline inside it. b is the input slice as fn names it.
+func (c *Ctx) readfContract(rule string, fn *ssa.Function, lf *lin.Fn, b *ssa.Parameter, depth int) {
+	{
+		name := c.name(fn)
 		for _, r := range ssax.Returns(fn) {
 			if len(r.Results) != 2 {
 				continue
 			}
 			site := name + " return @" + c.P.InstrPos(r)
+			// return h(b, i): the pair a library helper returns, judged inside the helper under the bounds that hold
+			// for its arguments here
+			e0, ok0 := r.Results[0].(*ssa.Extract)
+			e1, ok1 := r.Results[1].(*ssa.Extract)
+			if ok0 && ok1 && e0.Tuple == e1.Tuple && e0.Index == 0 && e1.Index == 1 && depth < 2 {
+				if hc, ok := e0.Tuple.(*ssa.Call); ok {
+					if h := hc.Call.StaticCallee(); h != nil && !hc.Call.IsInvoke() && c.P.InLib(h) && len(h.Blocks) > 0 {
+						var hb *ssa.Parameter
+						for i, a := range hc.Call.Args {
+							if a == ssa.Value(b) && i < len(h.Params) {
+								hb = h.Params[i]
+							}
+						}
+						if hb != nil {
+							lh := lin.New(h, func(string) bool { return true })
+							lh.Sub = func(g *ssa.Function) *lin.Fn { return c.linFn(g) }
+							lh.Axioms = append(lh.Axioms, lin.Ge(lh.LenOf(hb), lin.Const(1), "the input handed on by the Readf callback is non-empty"))
+							for i, a := range hc.Call.Args {
+								if i >= len(h.Params) {
+									break
+								}
+								if bt, ok := a.Type().Underlying().(*types.Basic); !ok || bt.Info()&types.IsInteger == 0 {
+									continue
+								}
+								na := lf.Norm(a)
+								if lf.ProveAt(hc.Block(), lin.Ge(na, lin.Const(0), "")) {
+									lh.Axioms = append(lh.Axioms, lin.Ge(lin.Atom(h.Params[i].Name()), lin.Const(0), "proven at the call in "+name+": "+h.Params[i].Name()+" >= 0"))
+								}
+								if lf.ProveAt(hc.Block(), lin.Ge(lf.LenOf(b), na, "")) {
+									lh.Axioms = append(lh.Axioms, lin.Ge(lh.LenOf(hb), lin.Atom(h.Params[i].Name()), "proven at the call in "+name+": "+h.Params[i].Name()+" <= len(input)"))
+								}
+							}
+							lh.Prepare()
+							c.R.Hold(rule, site, "hands on the result of "+c.name(h)+" (judged there)")
+							c.readfContract(rule, h, lh, hb, depth+1)
+							continue
+						}
+					}
+				}
+			}
 			v, n := ssax.Strip(r.Results[0]), r.Results[1]
 			if k, isC := ssax.ConstInt(n); isC && k == 0 {
 				if ssax.IsNilConst(v) {
